@@ -399,11 +399,19 @@ struct ScriptedTest {
     Scenario pool;            // must outlive the plugin's postTestAction (expectations point into it)
 };
 std::deque<ScriptedTest>* g_tests = 0;
+// teardown mode (`teardown` as first line instead of `plugin`): the same scripted tests in a private
+// registry WITHOUT MockSupportPlugin and with the library's DEFAULT MockFailureReporter; every test
+// starts from a cleared mock and verifies the mock itself the usual way,
+//     teardown() { mock().checkExpectations(); mock().clear(); }
+// Every failure the run records for the test is printed as `fail <first line>` when it is reported
+// (those of the end-of-test check under `> endtest`), then `verdict pass|fail`.
+bool g_teardown_mode = false;
 
 class ScriptUtest : public Utest {
     ScriptedTest& t_;
 public:
     ScriptUtest(ScriptedTest& t) : t_(t) {}
+    virtual void setup() CPPUTEST_OVERRIDE { if (g_teardown_mode) mock().clear(); }
     virtual void testBody() CPPUTEST_OVERRIDE {
         vh::emit("> test %s", t_.name.c_str());
         for (size_t i = 0; i < t_.ops.size(); i++) {
@@ -412,7 +420,10 @@ public:
             else exec_op(t_.pool, w, 0);
         }
     }
-    virtual void teardown() CPPUTEST_OVERRIDE { vh::emit("> endtest"); }
+    virtual void teardown() CPPUTEST_OVERRIDE {
+        vh::emit("> endtest");
+        if (g_teardown_mode) { mock().checkExpectations(); mock().clear(); }
+    }
 };
 
 class ScriptShell : public UtestShell {
@@ -422,9 +433,10 @@ public:
     virtual Utest* createTest() CPPUTEST_OVERRIDE { return new ScriptUtest(t_); }
 };
 
-void run_plugin_case(const vh::Case& c) {
+void run_plugin_case(const vh::Case& c, bool teardownMode) {
     std::deque<ScriptedTest> tests;
-    vh::emit_op("plugin");
+    g_teardown_mode = teardownMode;
+    vh::emit_op(teardownMode ? "teardown" : "plugin");
     for (size_t i = 1; i < c.ops.size(); i++) {
         const vh::Words& w = c.ops[i];
         if (w[0] == "test" && w.size() == 2 && is_name(w[1])) { tests.push_back(ScriptedTest()); tests.back().name = w[1]; }
@@ -439,18 +451,20 @@ void run_plugin_case(const vh::Case& c) {
         MockSupportPlugin plugin;
         std::deque<ScriptShell> shells;
         registry.setCurrentRegistry(&registry);
-        registry.installPlugin(&plugin);
+        if (!teardownMode) registry.installPlugin(&plugin);
         for (size_t i = 0; i < tests.size(); i++) shells.push_back(ScriptShell(tests[i]));
         for (size_t i = 0; i < shells.size(); i++) registry.addTest(&shells[shells.size() - 1 - i]);   // addTest prepends
         registry.runAllTests(result);
         registry.setCurrentRegistry(0);
     }
+    g_teardown_mode = false;
     mock().clear();
 }
 
 void run_case(const vh::Case& c) {
     g_case = &c;
-    if (!c.ops.empty() && c.ops[0].size() == 1 && c.ops[0][0] == "plugin") { run_plugin_case(c); return; }
+    if (!c.ops.empty() && c.ops[0].size() == 1 && c.ops[0][0] == "plugin") { run_plugin_case(c, false); return; }
+    if (!c.ops.empty() && c.ops[0].size() == 1 && c.ops[0][0] == "teardown") { run_plugin_case(c, true); return; }
     size_t failures = vh::in_fixture(body);
     if (failures) vh::emit("fixture-failures %lu", (unsigned long) failures);
 }
